@@ -638,7 +638,7 @@ func (c *ctl) enabled(cmd Cmd) bool {
 		return cmd.I < len(c.ins) && !c.sendPend[cmd.I] && !c.inClosed[cmd.I] && c.sendIdx[cmd.I] < len(c.inputVals(cmd.I)) && !c.libOwnsInput()
 	case "close":
 		return cmd.I < len(c.ins) && !c.sendPend[cmd.I] && !c.inClosed[cmd.I] && !c.libOwnsInput()
-	case "recv":
+	case "recv", "recvall":
 		_, ok := c.outs[cmd.O]
 		return ok && !c.recvPend[cmd.O] && !c.seen[cmd.O]
 	case "cancel":
@@ -724,6 +724,21 @@ func (c *ctl) issue(cmd *Cmd) {
 			v, ok := rd()
 			c.emit(Ev{E: "got", O: o, V: v, Ok: ok})
 		}()
+	case "recvall":
+		// a consumer that keeps up: receives again at once, up to D values or until the channel closes
+		o, n := cmd.O, cmd.D
+		c.recvPend[o] = true
+		rd := c.outs[o]
+		go func() {
+			for i := 0; i < n; i++ {
+				v, ok := rd()
+				c.emit(Ev{E: "got", O: o, V: v, Ok: ok, K: -2})
+				if !ok {
+					break
+				}
+			}
+			c.emit(Ev{E: "recvdone", O: o})
+		}()
 	case "cancel":
 		c.cancelled = true
 		c.cancel()
@@ -783,10 +798,14 @@ func (c *ctl) step(cmd Cmd, wins *[]Window) {
 				c.sendPend[d.I] = false
 			}
 		case "got":
-			c.recvPend[d.O] = false
+			if d.K != -2 {
+				c.recvPend[d.O] = false
+			}
 			if !d.Ok {
 				c.seen[d.O] = true
 			}
+		case "recvdone":
+			c.recvPend[d.O] = false
 		}
 	}
 	w.Q = c.snapshot()
@@ -860,6 +879,26 @@ func (c *ctl) epilogue(kind string, wins *[]Window) {
 		c.step(Cmd{C: "advance", D: big}, wins)
 		for _, o := range c.outName {
 			for n := 0; n < 64 && c.enabled(Cmd{C: "recv", O: o}); n++ {
+				c.step(Cmd{C: "recv", O: o}, wins)
+				relAll()
+			}
+		}
+	case "cancel-keepup":
+		// the context is cancelled while every consumer is receiving as fast as values come (a burst: the consumers are
+		// started and the cancel is issued before anything else runs): the stage must still stop
+		b := Cmd{C: "burst"}
+		for _, o := range c.outName {
+			b.Sub = append(b.Sub, Cmd{C: "recvall", O: o, D: 70})
+		}
+		b.Sub = append(b.Sub, Cmd{C: "cancel"})
+		c.step(b, wins)
+		closeAll()
+		relAll()
+		c.step(Cmd{C: "advance", D: big}, wins)
+		relAll()
+		c.step(Cmd{C: "advance", D: big}, wins)
+		for _, o := range c.outName {
+			for n := 0; n < 8 && c.enabled(Cmd{C: "recv", O: o}); n++ {
 				c.step(Cmd{C: "recv", O: o}, wins)
 				relAll()
 			}
